@@ -118,18 +118,32 @@ func (dss *dataStoreSet) getDb(index int, create bool) (ds *dataStore, valid boo
 	return
 }
 
-func (dss *dataStoreSet) flushDb(index int) {
+// flushDb empties one database in place. The dataStore object is shared by
+// every connection that has selected the index, so it must stay the same
+// object: replacing it would leave the other connections on the old data.
+// caller is the flushing command's lock handle on its own database (which an
+// enclosing EXEC may already own).
+func (dss *dataStoreSet) flushDb(index int, caller *dataStoreCommand) {
 	dss.mu.Lock()
-	defer dss.mu.Unlock()
+	ds, exists := dss.dbs[index]
+	dss.mu.Unlock()
 
-	delete(dss.dbs, index)
+	if exists {
+		ds.flush(caller)
+	}
 }
 
-func (dss *dataStoreSet) flushAll() {
+func (dss *dataStoreSet) flushAll(caller *dataStoreCommand) {
 	dss.mu.Lock()
-	defer dss.mu.Unlock()
+	all := make([]*dataStore, 0, len(dss.dbs))
+	for _, ds := range dss.dbs {
+		all = append(all, ds)
+	}
+	dss.mu.Unlock()
 
-	dss.dbs = map[int]*dataStore{}
+	for _, ds := range all {
+		ds.flush(caller)
+	}
 }
 
 func (dss *dataStoreSet) getUser(userName string) (dsu *dataStoreUser, exists bool) {
